@@ -21,6 +21,10 @@ PY6  float stored into an integer array: ``np.fromiter / np.array / np.asarray(<
      assigned such an expression: numpy truncates towards zero without a word.
 PY7  derived value held in an init field: ``__post_init__`` fills a defaulted init field of a dataclass from other init fields (stale under
      ``dataclasses.replace`` and after the source changes).
+PY8  unchained constructor: ``__post_init__`` / ``__init__`` of a subclass that does not call the base-class one which stores fields.
+PY9  ``itertools.groupby`` over an unsorted iterable whose groups are stored under their key.
+PY10 memoised accessor (cached_property / lru_cache) computed from a mutable container field of the same object.
+PY11 un-annotated class attribute of a subclass that shadows an inherited dataclass init field (the inherited __init__ hides it on every instance).
 PY4  replicated or default mutable: a mutable display as parameter default that the function changes in place; ``[<mutable display>] * n``;
      ``dict.fromkeys(keys, <mutable display>)``.
 """
@@ -607,6 +611,117 @@ def derived_init_field(model: Model, f: FunctionInfo) -> Iterator[Slip]:
                                 f"the derived value goes stale", f"derived:{tgt}")
 
 
+def unchained_post_init(model: Model, f: FunctionInfo) -> Iterator[Slip]:
+    """PY8: a class defines ``__post_init__`` (or ``__init__``) without calling the one of a base class of the package that stores fields of the object: what the
+    base constructor sets up or normalises is silently skipped for instances of the subclass."""
+    c = f.cls
+    if c is None or f.name not in ("__post_init__", "__init__"):
+        return
+    calls_super = any(isinstance(n, ast.Call) and isinstance(n.func, ast.Attribute) and n.func.attr == f.name and
+                      (isinstance(n.func.value, ast.Call) and isinstance(n.func.value.func, ast.Name) and n.func.value.func.id == "super"
+                       or isinstance(n.func.value, ast.Name) and model.maybe_cls(n.func.value.id) is not None) for n in ast.walk(f.node))
+    if calls_super:
+        return
+    for k in c.mro()[1:]:
+        if f.name in k.methods:
+            b = k.methods[f.name][0]
+            if "abstractmethod" in b.decorators:
+                continue
+            bsn = b.self_name
+            stores = [n for n in ast.walk(b.node) if (isinstance(n, (ast.Assign, ast.AnnAssign, ast.AugAssign)) and any(
+                isinstance(t, ast.Attribute) and isinstance(t.value, ast.Name) and t.value.id == bsn for t in (n.targets if isinstance(n, ast.Assign) else [n.target])))
+                or (isinstance(n, ast.Call) and ast.unparse(n.func).endswith("__setattr__") and len(n.args) == 3 and isinstance(n.args[0], ast.Name) and n.args[0].id == bsn)]
+            if stores:
+                what = ast.unparse(stores[0])[:70]
+                yield Slip("PY8", f, f.node, f"`{c.name}.{f.name}` does not call `{k.name}.{f.name}`, which sets fields of the object (`{what}`): for instances of {c.name} "
+                                             f"that step is skipped, so a {k.name} and a {c.name} built from the same arguments differ in those fields", f"unchained:{k.name}")
+            return
+
+
+def groupby_unsorted(f: FunctionInfo) -> Iterator[Slip]:
+    """PY9: ``itertools.groupby(xs, key)`` whose groups are stored under their key (dict / dict comprehension) while ``xs`` is not sorted by that key: groupby only
+    groups CONSECUTIVE runs, so a key that re-appears later overwrites its earlier run."""
+    par = _parents(f.node)
+    for n in ast.walk(f.node):
+        if not (isinstance(n, ast.Call) and (isinstance(n.func, ast.Name) and n.func.id == "groupby" or isinstance(n.func, ast.Attribute) and n.func.attr == "groupby"
+                                             and isinstance(n.func.value, ast.Name) and n.func.value.id == "itertools")) or not n.args:
+            continue
+        src = n.args[0]
+        key = n.args[1] if len(n.args) > 1 else next((k.value for k in n.keywords if k.arg == "key"), None)
+        sorted_src = isinstance(src, ast.Call) and isinstance(src.func, ast.Name) and src.func.id == "sorted"
+        if isinstance(src, ast.Name):
+            # a local name bound to sorted(..) / sorted in place before
+            for st in ast.walk(f.node):
+                if isinstance(st, (ast.Assign, ast.AnnAssign)) and st.value is not None and any(isinstance(t, ast.Name) and t.id == src.id for t in (st.targets if isinstance(st, ast.Assign) else [st.target])) \
+                        and isinstance(st.value, ast.Call) and isinstance(st.value.func, ast.Name) and st.value.func.id == "sorted":
+                    sorted_src = True
+                if isinstance(st, ast.Call) and isinstance(st.func, ast.Attribute) and st.func.attr == "sort" and isinstance(st.func.value, ast.Name) and st.func.value.id == src.id:
+                    sorted_src = True
+        if sorted_src:
+            continue
+        # how are the groups used: keyed storage?
+        p_ = par.get(n)
+        keyed = False
+        if isinstance(p_, ast.comprehension):
+            comp = par.get(p_)
+            keyed = isinstance(comp, ast.DictComp)
+            if isinstance(comp, (ast.ListComp, ast.GeneratorExp)) and isinstance(par.get(comp), ast.Call) and isinstance(par[comp].func, ast.Name) and par[comp].func.id == "dict":
+                keyed = True
+        elif isinstance(p_, ast.For):
+            keyed = any(isinstance(x, ast.Subscript) and isinstance(x.ctx, ast.Store) for b in p_.body for x in ast.walk(b))
+        if keyed:
+            yield Slip("PY9", f, n, f"`{ast.unparse(n)[:70]}` groups consecutive runs only and `{ast.unparse(src)[:30]}` is not sorted by the key: when a key re-appears after another "
+                                    f"one, its later run REPLACES the earlier one in the keyed result -- elements are silently lost", "groupby-unsorted")
+
+
+_MUTABLE_ANN = ("List[", "list[", "Dict[", "dict[", "Set[", "set[", "List", "Dict", "Set", "list", "dict", "set", "deque", "DefaultDict[", "defaultdict")
+
+
+def cached_over_mutable(model: Model, f: FunctionInfo) -> Iterator[Slip]:
+    """PY10: a ``functools.cached_property`` / ``lru_cache`` / ``cache`` accessor of an object computed from a field of that object that holds a mutable container
+    (annotated List / Dict / Set): the container can grow in place (also on a frozen dataclass), and the accessor keeps answering with the first snapshot."""
+    c = f.cls
+    if c is None or f.self_name is None:
+        return
+    memo = [d for d in f.decorators if d.split(".")[-1] in ("cached_property", "lru_cache", "cache")]
+    if not memo or len([p_ for p_ in f.params if p_.arg != f.self_name]) > 0:
+        return
+    flds = c.all_fields()
+    sn = f.self_name
+    reads = [x.attr for x in ast.walk(f.node) if isinstance(x, ast.Attribute) and isinstance(x.value, ast.Name) and x.value.id == sn and isinstance(x.ctx, ast.Load)]
+    for r in reads:
+        fi = flds.get(r)
+        if fi is not None and fi.annotation is not None:
+            ann = ast.unparse(fi.annotation).replace("typing.", "")
+            if ann.startswith(_MUTABLE_ANN):
+                yield Slip("PY10", f, f.node, f"`{c.name}.{f.name}` is memoised ({memo[0]}) but computed from `self.{r}: {ann}`, a container that can change in place: after "
+                                              f"`obj.{r}.append(..)` / `.extend(..)` the accessor still answers with the snapshot of its first read", f"cached:{r}")
+                return
+
+
+def shadowed_field_default(model: Model, c) -> Iterator[Slip]:
+    """PY11: a class body assigns, WITHOUT annotation, a name that is an init field of a dataclass it inherits from.  That is not a field override: the inherited
+    ``__init__`` still stores the base default on every instance, and the instance attribute hides the class attribute -- the value written in the subclass never
+    reaches an object built without that argument."""
+    bases = [k for k in c.mro()[1:] if k.is_dataclass]
+    if not bases:
+        return
+    own_annotated = set(c.own_fields)
+    for name, val in c.class_attrs.items():
+        if name in own_annotated or name.startswith("__"):
+            continue
+        for k in bases:
+            fi = k.own_fields.get(name)
+            if fi is not None and fi.init is not False and not getattr(fi, "is_classvar", False):
+                if "__init__" in c.methods:
+                    break        # an own constructor may well use the class attribute
+                carrier = FunctionInfo(name="<class body>", node=c.node, module=c.module, cls=c, kind="method", decorators=[])
+                yield Slip("PY11", carrier, val, f"`{c.name}.{name} = {ast.unparse(val)[:50]}` is a plain class attribute, but `{name}` is an init field of the dataclass {k.name}: the "
+                                             f"inherited __init__ stores {k.name}'s default on every instance, which hides this value -- objects built without the argument never see it",
+                           f"shadowed:{name}")
+                break
+
+
 def scan(model: Model, keep_module) -> Tuple[List[Slip], int]:
     out: List[Slip] = []
     n = 0
@@ -623,6 +738,12 @@ def scan(model: Model, keep_module) -> Tuple[List[Slip], int]:
         out.extend(none_conflated(model, f))
         out.extend(float_into_int_array(model, f))
         out.extend(derived_init_field(model, f))
+        out.extend(unchained_post_init(model, f))
+        out.extend(groupby_unsorted(f))
+        out.extend(cached_over_mutable(model, f))
+    for c in model.all_classes():
+        if keep_module(c.module):
+            out.extend(shadowed_field_default(model, c))
     return out, n
 
 
